@@ -67,10 +67,18 @@ fn main() {
         let mut runs = vec![];
         for &oi in &opts {
             let o = run::Opts::from_index(oi);
+            #[cfg(wgsl_to_wgpu_verif)]
+            wgsl_to_wgpu::verif_hooks::reset();
             let t0 = std::time::Instant::now();
             let outcome = run::run_real(&src, path.as_deref(), o);
             let us = t0.elapsed().as_micros();
-            runs.push(tagged("run", vec![o.sexp(), run::outcome_sexp(&outcome), nat(us)]));
+            let mut run = vec![o.sexp(), run::outcome_sexp(&outcome), nat(us)];
+            #[cfg(wgsl_to_wgpu_verif)]
+            {
+                let (a, b, c) = wgsl_to_wgpu::verif_hooks::read();
+                run.push(tagged("visits", vec![nat(a), nat(b), nat(c)]));
+            }
+            runs.push(tagged("run", run));
         }
         let case = tagged(
             "case",
